@@ -242,6 +242,7 @@ type sitecase struct {
 
 type siteRig struct {
 	tbl    *table.Table
+	rk     string // key of the route under test
 	dests  []obsDest
 	agg    *aggregator.Aggregator
 	tick   chan time.Time
@@ -257,6 +258,7 @@ func buildSite(t *testing.T, site string, f filt) (*siteRig, error) {
 	}
 	rig := &siteRig{tbl: newTable(t, false)}
 	rk := nextKey("c03r")
+	rig.rk = rk
 	mkRoute := func(kind string, rm matcher.Matcher, dms ...matcher.Matcher) {
 		ds := make([]*dest.Destination, 0, len(dms))
 		for i, dm := range dms {
@@ -268,6 +270,8 @@ func buildSite(t *testing.T, site string, f filt) (*siteRig, error) {
 		var err error
 		if kind == "first" {
 			r, err = route.NewSendFirstMatch(rk, rm, ds)
+		} else if kind == "chash" {
+			r, err = route.NewConsistentHashing(rk, rm, ds)
 		} else {
 			r, err = route.NewSendAllMatch(rk, rm, ds)
 		}
@@ -283,6 +287,10 @@ func buildSite(t *testing.T, site string, f filt) (*siteRig, error) {
 		mkRoute("all", allMatcher(t), allMatcher(t))
 	case "route", "aggroute":
 		mkRoute("all", m, allMatcher(t))
+	case "route_first":
+		mkRoute("first", m, allMatcher(t))
+	case "route_chash":
+		mkRoute("chash", m, allMatcher(t))
 	case "dest_all", "aggdest_all":
 		mkRoute("all", allMatcher(t), m, allMatcher(t))
 	case "dest_first", "aggdest_first":
@@ -379,6 +387,113 @@ func TestSites(t *testing.T) {
 			"v": c.V, "t": c.T, "obs": obs, "go": c.F})
 	}
 	if rig != nil {
+		rig.closer()
+	}
+}
+
+// ---------------------------------------------------------------------------
+// TestUpdates: filters reconfigured at run time (what modRoute / modDest do:
+// Table.UpdateRoute / Table.UpdateDestination), probed after every step
+// ---------------------------------------------------------------------------
+
+type ustep struct {
+	Set []string        `json:"set"` // the options the update names
+	Go  filt            `json:"go"`  // their new values as rendered by the specification ("" clears the option)
+	Val json.RawMessage `json:"val"` // ... and as the specification reads them
+}
+
+type uhist struct {
+	H     int             `json:"h"`
+	Site  string          `json:"site"`
+	F     filt            `json:"f"`
+	Ast   json.RawMessage `json:"ast"`
+	Steps []ustep         `json:"steps"`
+	Names []string        `json:"names"`
+}
+
+func (f filt) option(name string) (string, bool) {
+	switch name {
+	case "prefix":
+		return f.Prefix, true
+	case "notPrefix":
+		return f.NotPrefix, true
+	case "sub":
+		return f.Sub, true
+	case "notSub":
+		return f.NotSub, true
+	case "regex":
+		return f.Regex, true
+	case "notRegex":
+		return f.NotRegex, true
+	}
+	return "", false
+}
+
+func TestUpdates(t *testing.T) {
+	hx.Out(t)
+	lines, err := hx.ReadLines(mustEnv(t, "VERIF_MT_UPDHIST"))
+	if err != nil {
+		t.Fatal(err)
+	}
+	out := hx.NewLog(mustEnv(t, "VERIF_MT_UPDTRACE"))
+	defer out.Close()
+	for _, raw := range lines {
+		var h uhist
+		if err := json.Unmarshal(raw, &h); err != nil {
+			t.Fatalf("update history: %v", err)
+		}
+		rig, err := buildSite(t, h.Site, h.F)
+		if err != nil {
+			t.Fatalf("update history %d: site %s filter %s: %v", h.H, h.Site, h.F.key(), err)
+		}
+		onDest := strings.HasPrefix(h.Site, "dest_")
+		// the options the real code says the filter has (reported only; the specification keeps its own account)
+		reported := func() matcher.Matcher {
+			r := rig.tbl.GetRoute(rig.rk)
+			if onDest {
+				d, err := r.GetDestination(0)
+				if err != nil {
+					t.Fatalf("update history %d: %v", h.H, err)
+				}
+				return d.GetMatcher()
+			}
+			return r.Snapshot().Matcher
+		}
+		probe := func(step int) {
+			names := make([][]string, 0, len(h.Names))
+			obs := make([][]int64, 0, len(h.Names))
+			for _, n := range h.Names {
+				before := rig.counts()
+				rig.tbl.Dispatch([]byte(n + " 1 1"))
+				obs = append(obs, delta(before, rig.counts()))
+				names = append(names, chars(n))
+			}
+			m := reported()
+			out.Emit(map[string]interface{}{"ev": "uprobe", "h": h.H, "step": step, "site": h.Site, "names": names, "obs": obs,
+				"cfg": filt{m.Prefix, m.NotPrefix, m.Sub, m.NotSub, m.Regex, m.NotRegex}})
+		}
+		out.Emit(map[string]interface{}{"ev": "uhist", "h": h.H, "site": h.Site, "f": h.Ast, "go": h.F})
+		probe(0)
+		for i, st := range h.Steps {
+			opts := map[string]string{}
+			for _, o := range st.Set {
+				v, ok := st.Go.option(o)
+				if !ok {
+					t.Fatalf("update history %d: unknown option %q", h.H, o)
+				}
+				opts[o] = v
+			}
+			if onDest {
+				err = rig.tbl.UpdateDestination(rig.rk, 0, opts)
+			} else {
+				err = rig.tbl.UpdateRoute(rig.rk, opts)
+			}
+			if err != nil {
+				t.Fatalf("update history %d step %d: update %v refused: %v", h.H, i+1, opts, err)
+			}
+			out.Emit(map[string]interface{}{"ev": "update", "h": h.H, "step": i + 1, "set": st.Set, "val": st.Val, "go": opts})
+			probe(i + 1)
+		}
 		rig.closer()
 	}
 }
